@@ -708,6 +708,7 @@ pub fn check(args: &CheckArgs) -> i32 {
     fs::write(&tmp, serde_json::to_vec_pretty(&ev).unwrap()).expect("write evidence");
     fs::rename(&tmp, &evp).expect("rename evidence");
     let _ = fs::remove_dir_all(&outdir);
+    crate::fsutil::cleanup_process_dirs();
 
     println!(
         "{} {}: runs={} nontrivial_distinct={} decisions={} switches={} violations_raw={} wall={:.1}s",
